@@ -13,29 +13,54 @@ honest cases (kex x host key algorithm x 0..3 rekeys started by either side):
     wire with `cryptography` directly (not paramiko's verifier), names the negotiated algorithm,
     and `get_remote_server_key()` is that key;
   * session_id on both sides equals the first H after every re-exchange, while the H values differ.
-fault cases (PlainMitm edits the server's plaintext reply of the initial exchange):
-  one bit flipped in K_S / signature blob / Q_S, f or Q_S replaced by another valid public value,
-  algorithm name inside the signature replaced, K_S replaced by another valid key of the same type,
-  the reply of an earlier handshake replayed, gex group p or g altered.
-  Oracle: start_client raises, the client never sets initial_kex_done and never sends NEWKEYS.
+  * honest servers other than paramiko's own engine (ECDH-NIST): `lying.ref_ecdh_server`, a
+    self-contained RFC 5656 server that sends Q_S uncompressed or COMPRESSED and hashes the octet
+    string it sent. Uncompressed: everything above. Compressed (optional in RFC 5656): completion is
+    not demanded, but every exchange hash the client computed must be the server's (= the RFC hash
+    of the wire octets), and if the session completes everything above holds as well.
+fault cases: ONE alteration of the server's reply in exchange number k = 1 + len(rekeys), k in 1..3,
+  after k-1 honest exchanges (initiator drawn per exchange). k = 1: `PlainMitm` edits the plaintext
+  reply on the link. k >= 2 (encrypted traffic): the non-tested server is a `lying.EditingServer`
+  that applies the same edit just before the packet is encrypted, its own K/H/signature stay those
+  of the unaltered reply.
+  alterations: one bit flipped in K_S / signature blob / Q_S or f; f or Q_S replaced by another valid
+  public value; algorithm name inside the signature replaced; K_S replaced by another valid key of
+  the same type; an earlier reply replayed (k = 1: of an earlier handshake, k >= 2: of exchange k-1
+  of the same session); gex group p or g altered;
+  re-encodings of the same value ("reenc"): Q_S as compressed / hybrid SEC1 point, X25519 value with
+  the ignored top bit set, K_S with trailing bytes / RSA e zero-padded / ECDSA point compressed
+  (all change octets that enter H, so the honest signature cannot verify) and f as a zero-padded
+  mpint (does NOT change H, which is defined over the value: accepting is fine if K and H still
+  agree on both peers);
+  lying signer ("signer", `lying.LyingSigner` as the server's host key object, honest for the
+  first k-1 signatures): genuine signature over H with one bit flipped / over the session id / over
+  the previous H, signature made with another algorithm, signature of another key of the same type.
+  Oracle k = 1: start_client raises, the client never sets initial_kex_done and never sends NEWKEYS.
+  Oracle k >= 2: the client never switches its outbound keys a k-th time, its byte stream (decoded
+  by `peers.Tap` under its recorded keys) holds exactly k-1 NEWKEYS, and its transport ends.
 """
 from hypothesis import strategies as st
 
-from vlib import mitm, peers
+from vlib import lying, mitm, peers
 from vlib import refssh as R
 
 PROPERTY = "C06"
 LEVEL = "exploration"
 RULE = (
     "kex method (10) x host key algorithm (7) forced via disabled_algorithms; honest sessions with 0..3 re-exchanges "
-    "(initiator drawn per rekey); fault sessions = one edit of the server's reply (bit flip at a drawn position of K_S / "
-    "signature / Q_S, substituted f / Q_S / signature algorithm name / host key / gex p,g, replayed earlier reply). quick "
-    "enumerates every kex and every host key algorithm at least twice on the honest path and every kex for the fault path, "
-    "the rest is hypothesis-drawn. non-trivial = fault session, or honest session with >= 1 re-exchange; distinct by full case"
+    "(initiator drawn per rekey; ECDH-NIST also against a reference server sending Q_S uncompressed / compressed); fault "
+    "sessions = one alteration of the server's reply in exchange k = 1..3 after k-1 honest exchanges (k = 1 by a link MITM, "
+    "k >= 2 inside the non-tested server before encryption): bit flip at a drawn position of K_S / signature / Q_S or f, "
+    "substituted f / Q_S / signature algorithm name / host key / gex p,g, replayed earlier reply, equivalent re-encoding of "
+    "Q_S / f / K_S, lying signer (signature over other data / of another algorithm / of another key). quick enumerates every "
+    "kex and every host key algorithm at least twice on the honest path, every kex for the fault path at k = 1 and k = 2 and "
+    "every alteration kind at k = 2 and k = 3, the rest is hypothesis-drawn. non-trivial = fault session, or honest session "
+    "with >= 1 re-exchange or a non-paramiko server; distinct by full case"
 )
 
 KEXES = list(mitm.ALL_KEX)
-CHEAP = ["curve25519-sha256@libssh.org", "ecdh-sha2-nistp256", "diffie-hellman-group1-sha1", "diffie-hellman-group-exchange-sha256"]
+CHEAP = ["curve25519-sha256@libssh.org", "ecdh-sha2-nistp256", "diffie-hellman-group1-sha1", "diffie-hellman-group-exchange-sha256"]  # one per family
+CHEAPISH = CHEAP + ["ecdh-sha2-nistp384", "ecdh-sha2-nistp521"]  # every method whose handshake stays below ~25 ms
 HOSTALG = {
     "ssh-rsa": "rsa2048",
     "rsa-sha2-256": "rsa2048",
@@ -65,33 +90,66 @@ def _pack(kex):
 # ----------------------------------------------------------------------------- honest sessions
 
 
+def _norm_honest(case):
+    """The "server" dimension only exists for ECDH-NIST; drop it elsewhere so that equal sessions
+    count as one case."""
+    if case.get("server", "paramiko") != "paramiko" and case["kex"] in CURVES:
+        return case
+    return {k: v for k, v in case.items() if k != "server"}
+
+
+def _partial_agreement(ctx, case, bucket, ckh, skh):
+    """Every (K, H) the client computed must be the honest server's (same index)."""
+    for i in range(min(len(ckh), len(skh))):
+        if ckh[i][0] != skh[i][0]:
+            ctx.violation("same-K-H", "%s:K-differs" % bucket, case, "exchange %d" % i)
+            return False
+        if ckh[i][1] != skh[i][1]:
+            ctx.violation("same-K-H", "%s:H-differs" % bucket, case, "exchange %d (server sent Q_S %s and hashed what it sent)" % (i, case.get("server", "paramiko")))
+            return False
+    return True
+
+
 def run_honest(ctx, case):
+    case = _norm_honest(case)
     kex, hostalg, rekeys = case["kex"], case["hostalg"], list(case["rekeys"])
+    server = case.get("server", "paramiko")
+    optional = server == "ref-compressed"  # point compression MAY be used: completion is not demanded
     cls = ["honest", "kex:" + kex, "hostalg:" + hostalg, "rekeys:%d" % len(rekeys)]
-    ctx.case(case, len(rekeys) >= 1, cls)
+    if server != "paramiko":
+        cls.append("server:" + server)
+    ctx.case(case, len(rekeys) >= 1 or server != "paramiko", cls)
     bucket = "%s/%s" % (mitm.kex_family(kex), hostalg)
     with _pack(kex):
-        link, tc, ts = _pair(kex, hostalg)
+        if server == "paramiko":
+            link, tc, ts = _pair(kex, hostalg)
+        else:
+            link, tc, ts = _pair(kex, hostalg, server_cls=lying.EditingServer)
+            ts.v_install_engines({kex: lying.ref_ecdh_server(kex, server[4:])})
         try:
             ce, se = peers.start_both(tc, ts, timeout=60.0)
             if ce or se:
+                if optional:
+                    ctx.count("server:ref-compressed:initial-exchange-refused")
+                    return _partial_agreement(ctx, case, bucket, list(tc.v_kh), list(ts.v_kh))
                 ctx.violation("honest-handshake-completes", "%s:%s" % (bucket, type(ce or se).__name__), case, "client=%r server=%r" % (ce, se))
                 return False
             sids = [(tc.session_id, ts.session_id)]
             tc.auth_password("u", "pw")
             for k, who in enumerate(rekeys):
-                t = tc if who == "c" else ts
                 try:
-                    t.renegotiate_keys()
-                    if not mitm.wait_exchanges(2 + k, tc, ts):
-                        raise EOFError("re-exchange %d did not complete on both sides" % (k + 1))
-                    # a round trip makes sure the other side switched too and gives the Tap
-                    # a packet after NEWKEYS in both directions
-                    tc.global_request("verif-c06@verif", wait=True)
+                    # (a round trip after each exchange makes sure the other side switched too and
+                    # gives the Tap a packet after NEWKEYS in both directions)
+                    lying.rekey_prefix(tc, ts, [who], first=2 + k)
                 except Exception as e:
+                    if optional:
+                        ctx.count("server:ref-compressed:re-exchange-refused")
+                        return _partial_agreement(ctx, case, bucket, list(tc.v_kh), list(ts.v_kh))
                     ctx.violation("rekey-completes", "%s:%s" % (bucket, type(e).__name__), case, repr(e))
                     return False
                 sids.append((tc.session_id, ts.session_id))
+            if server != "paramiko":
+                ctx.count("server:%s:completed" % server)
             n = 1 + len(rekeys)
             ckh, skh = list(tc.v_kh), list(ts.v_kh)
             if len(ckh) != n or len(skh) != n:
@@ -265,7 +323,50 @@ def _edit_reply(kex, hostalg, fault, payload, state):
         k_s = state["otherkey"]
     elif kind == "replay":
         return state["old_reply"]
+    elif kind == "reenc":
+        form = reenc_form(kex, hostalg, fault)
+        state["form"] = form
+        if fault["field"] == "k_s":
+            k_s = _reencode_key(k_s, form, fault["n"])
+        elif fam == "ecdh":
+            mid = lying.point_form(kex, mid, form)
+        elif fam == "c25519":
+            mid = mid[:-1] + bytes([mid[-1] | 0x80])  # X25519 ignores the top bit of the u coordinate
+        else:  # the same number as a non-minimal mpint (leading zero bytes)
+            body = b"\x00" * int(form.rsplit("-", 1)[1]) + R.mpint_body(mid)
+            return R.u8(reply_type) + R.string(k_s) + R.string(body) + R.string(sig)
     return mitm.pack(reply_type, fmt, [k_s, mid, sig])
+
+
+def reenc_form(kex, hostalg, fault):
+    """Which equivalent encoding a "reenc" fault stands for in this configuration (derived from
+    the drawn number so that every configuration has one)."""
+    fam = mitm.kex_family(kex)
+    n = fault["n"]
+    if fault["field"] == "k_s":
+        if n % 2 == 0 or hostalg == "ssh-ed25519":
+            return "trailing-%d" % (1 + (n // 2) % 4)
+        return "rsa-e-padded" if hostalg in ("ssh-rsa", "rsa-sha2-256", "rsa-sha2-512") else "ecdsa-point-compressed"
+    if fam == "ecdh":
+        return ["compressed", "hybrid"][n % 2]
+    if fam == "c25519":
+        return "highbit"
+    return "padded-%d" % (1 + n % 3)
+
+
+def _reencode_key(k_s, form, n):
+    """The same public key in a different blob (trailing bytes after the last field, RSA exponent
+    with a leading zero byte, ECDSA point compressed)."""
+    if form.startswith("trailing-"):
+        return k_s + bytes([n % 251]) * int(form.rsplit("-", 1)[1])
+    rd = R.Reader(k_s)
+    name = rd.string()
+    if form == "rsa-e-padded":
+        e = rd.string()
+        return R.string(name) + R.string(b"\x00" + e) + rd.rest()
+    cname = rd.string()
+    point = rd.string()
+    return R.string(name) + R.string(cname) + R.string(lying.point_form("ecdh-sha2-" + cname.decode(), point, "compressed")) + rd.rest()
 
 
 def _capture_reply(kex, hostalg):
@@ -286,10 +387,27 @@ def _capture_reply(kex, hostalg):
     return got[-1] if got else None
 
 
+SIGNER_HOWS = ["hflip", "sid", "prev", "otheralg", "otherkey"]
+
+
+def fault_label(kex, hostalg, fault):
+    kind = fault["kind"]
+    lab = kind + (":" + fault["field"] if "field" in fault else "")
+    if kind == "reenc":
+        form = reenc_form(kex, hostalg, fault)
+        lab += ":" + {"trailing": "trailing-bytes", "padded": "zero-padded-mpint"}.get(form.rsplit("-", 1)[0], form)
+    if kind == "signer":
+        lab += ":" + fault["how"]
+    return lab
+
+
 def run_fault(ctx, case):
     kex, hostalg, fault = case["kex"], case["hostalg"], case["fault"]
+    rekeys = list(case.get("rekeys") or [])  # initiators of exchanges 2..k; the last one is altered
+    k = 1 + len(rekeys)
     fam = mitm.kex_family(kex)
     kind = fault["kind"]
+    reply_type = 33 if fam == "gex" else 31
     state = {}
     if kind == "gexgroup" and fam != "gex":
         return True
@@ -309,7 +427,7 @@ def run_fault(ctx, case):
         state["p"] = mitm.fixed_group_prime(kex)
     if kind == "pub" and fam == "gex":
         state["p"] = mitm.group_prime(1024)
-    if kind == "replay":
+    if kind == "replay" and k == 1:
         old = _capture_reply(kex, hostalg)
         if old is None:
             ctx.inconc("fault:replay-capture-failed")
@@ -317,54 +435,139 @@ def run_fault(ctx, case):
         state["old_reply"] = old
     edited = []
 
-    def cb(d, i, payload):
-        if d != "s2c" or edited:
+    def edit(payload):
+        if edited:
             return None
         new = _edit_reply(kex, hostalg, fault, payload, state)
         if new is None or new == payload:
             return None
         edited.append((payload, new))
-        return [new]
+        return new
 
+    def cb(d, i, payload):  # k == 1: on the link
+        if d != "s2c":
+            return None
+        new = edit(payload)
+        return None if new is None else [new]
+
+    via_server = k >= 2 or kind == "signer"
+    signer = None
+    prefix_failure = None
+    res = None
     with _pack(kex):
-        link, tc, ts = _pair(kex, hostalg)
-        m = mitm.PlainMitm(link, on_packet=cb)
+        if via_server:
+            link, tc, ts = _pair(kex, hostalg, server_cls=lying.EditingServer)
+            m = mitm.PlainMitm(link)  # passive: reads the plaintext part of the client's stream
+            if kind == "signer":
+                signer = lying.LyingSigner(peers.keypool()[HOSTALG[hostalg]], k, fault["how"], fault["n"], ts)
+                ts.server_key_dict = {name: signer for name in ts.server_key_dict}
+            else:
+
+                def v_edit(kno, raw):  # k >= 2: inside the non-tested server, before encryption
+                    if kno != k:
+                        return None
+                    if kind == "replay" and "old_reply" not in state:
+                        prev = [p for (j, p) in ts.v_kexmsgs if j == k - 1 and p[0] == reply_type]
+                        if not prev:
+                            return None
+                        state["old_reply"] = prev[-1]
+                    return edit(raw)
+
+                ts.v_edit = v_edit
+        else:
+            link, tc, ts = _pair(kex, hostalg)
+            m = mitm.PlainMitm(link, on_packet=cb)
         try:
             ce, se = peers.start_both(tc, ts, timeout=60.0)
             done = tc.initial_kex_done
+            if k >= 2:
+                if ce or se or not done:
+                    prefix_failure = ("honest-handshake-completes", type(ce or se).__name__, "client=%r server=%r" % (ce, se))
+                else:
+                    try:
+                        tc.auth_password("u", "pw")
+                        lying.rekey_prefix(tc, ts, rekeys[:-1])
+                    except Exception as e:
+                        prefix_failure = ("rekey-completes", type(e).__name__, repr(e))
+                    else:
+                        res = lying.rekey_observed(tc, ts, rekeys[-1], k)
             active = tc.is_active()
+            ckh, skh = list(tc.v_kh), list(ts.v_kh)
         finally:
             peers.shutdown(tc, ts)
             mitm.cancel_timers(tc, ts)
+        c_chunks, c_epochs = list(link.ab.sent), list(tc.v_out)
     if m.errors:
         raise RuntimeError("PlainMitm could not parse the handshake: %r" % (m.errors,))
-    if not edited:
+    if prefix_failure is not None:  # the honest exchanges before the altered one (same claims as run_honest)
+        ctx.case(case, False, ["fault:not-applied"])
+        ctx.violation(prefix_failure[0], "%s/%s:%s" % (fam, hostalg, prefix_failure[1]), case, "before the altered exchange: " + prefix_failure[2])
+        return False
+    if not edited and not (signer is not None and signer.lied):
         ctx.case(case, False, ["fault:not-applied"])
         return True
-    ctx.case(case, True, ["fault", "fault:" + kind + (":" + fault["field"] if "field" in fault else "") + ("/" + fault["part"] if fault.get("part") else ""), "fkex:" + kex, "fhostalg:" + hostalg])
+    label = fault_label(kex, hostalg, fault)
+    oldlabel = kind + (":" + fault["field"] if "field" in fault else "")
+    cls = ["fault", "fault:" + oldlabel + ("/" + fault["part"] if fault.get("part") else ""), "fkex:" + kex, "fhostalg:" + hostalg, "fault-on-exchange:%d" % k]
+    cls.append("fault-on-exchange:%d/%s" % (k, kind))
+    if k >= 2:
+        cls.append("fault-initiator:" + ("client" if rekeys[-1] == "c" else "server"))
+    if kind == "reenc":
+        cls.append("reencoded:" + label.split(":", 1)[1])
+    if kind == "signer":
+        cls.append("lying-signer:" + fault["how"])
+    ctx.case(case, True, cls)
     ktype = HOSTALG[hostalg].rstrip("b").rstrip("0123456789") if not hostalg.endswith("25519") else "ed25519"
-    bucket = "%s:%s/%s" % (kind + (":" + fault["field"] if "field" in fault else ""), fam, ktype)
+    bucket = "%s:%s/%s" % (label if kind in ("reenc", "signer") else oldlabel, fam, ktype)
     if state.get("blob_len_increased"):
         # one root cause whatever the kex: the length prefix of the inner signature string was made
         # larger than the data that follows (see known_findings.d/C06.json)
         bucket = "flip:sig:blob-length-increased/%s" % ktype
     if state.get("ecdsa_s_len_increased"):
         bucket = "flip:sig:ecdsa-s-length-increased"  # same leniency one level deeper (ECDSAKey._sigdecode)
-    sent_newkeys = 21 in m.types("c2s")
-    if ce is None and not done and not sent_newkeys:
-        # start_client returns normally when its timeout expires: the client was still busy
-        # (e.g. Message.get_mpint on a length prefix just below 2**20 zero-pads to 1 MiB and
-        # util.inflate_long needs about a minute for that) - not an acceptance
-        ctx.inconc("fault:client-still-busy-at-timeout")
-        return True
-    if done or sent_newkeys:
+    # the zero-padded mpint is the same VALUE f, and H is defined over the value: accepting it is
+    # no violation as long as both peers still agree
+    must_abort = not (kind == "reenc" and fault["field"] == "pub" and fam in ("dh", "gex"))
+    if k == 1:
+        sent_newkeys = 21 in m.types("c2s")
+        if ce is None and not done and not sent_newkeys:
+            # start_client returns normally when its timeout expires: the client was still busy
+            # (e.g. Message.get_mpint on a length prefix just below 2**20 zero-pads to 1 MiB and
+            # util.inflate_long needs about a minute for that) - not an acceptance
+            ctx.inconc("fault:client-still-busy-at-timeout")
+            return True
+        accepted = bool(done or sent_newkeys)
         what = "accepted" if ce is None else ("initial_kex_done" if done else "sent-NEWKEYS")
-        ctx.violation("altered-reply-aborts", "%s:%s" % (bucket, what), case, "start_client raised %r, initial_kex_done=%s, active=%s, client sent types %r" % (ce, done, active, m.types("c2s")))
+        detail = "start_client raised %r, initial_kex_done=%s, active=%s, client sent types %r" % (ce, done, active, m.types("c2s"))
+    else:
+        try:
+            newkeys = lying.client_newkeys(c_chunks, c_epochs)
+        except R.RefError as e:
+            ctx.violation("wire-decodes-with-recorded-keys", "%s/%s:client-stream:%s" % (fam, hostalg, str(e)[:24]), case, repr(e))
+            return False
+        accepted = bool(res["accepted"] or newkeys >= k)
+        if not accepted and res["busy"]:
+            ctx.inconc("fault:client-still-busy-at-timeout")
+            return True
+        what = "accepted-on-rekey"
+        detail = "exchange %d (started by %s) altered: renegotiate_keys -> %r, client switched outbound keys %d time(s), NEWKEYS in the client's stream %d, client active afterwards=%s" % (
+            k, "client" if rekeys[-1] == "c" else "server", res["exc"], len(c_epochs), newkeys, active)
+    if not must_abort:
+        ctx.count("reencoded:pub:zero-padded-mpint:" + ("accepted" if accepted else "refused"))
+        if accepted and (len(ckh) < k or len(skh) < k or ckh[k - 1] != skh[k - 1]):
+            ctx.violation("same-K-H", "%s:after-zero-padded-f" % fam, case, "exchange %d completed but K/H differ between the peers" % k)
+            return False
+        return True
+    if accepted:
+        ctx.violation("altered-reply-aborts", "%s:%s" % (bucket, what), case, detail)
         return False
     return True
 
 
 # ----------------------------------------------------------------------------- generators / drivers
+
+
+REKEYS = [[], [], [], ["c"], ["s"], ["c", "s"], ["s", "c"], ["c", "c"], ["s", "s"]]  # exchange k = 1 + len
 
 
 def fault_st(kex_st):
@@ -378,14 +581,28 @@ def fault_st(kex_st):
     swap = st.just({"kind": "swapkey"})
     rep = st.just({"kind": "replay"})
     gg = st.fixed_dictionaries({"kind": st.just("gexgroup"), "field": st.sampled_from(["p", "g"]), "n": st.integers(0, 10**6)})
+    reenc = st.fixed_dictionaries({"kind": st.just("reenc"), "field": st.sampled_from(["pub", "pub", "k_s"]), "n": st.integers(0, 1000)})
+    signer = st.fixed_dictionaries({"kind": st.just("signer"), "how": st.sampled_from(SIGNER_HOWS), "n": st.integers(0, 10**6)})
     return st.fixed_dictionaries(
-        {"kind": st.just("fault"), "kex": kex_st, "hostalg": st.sampled_from(ALLKEYALGS), "fault": st.one_of(flip, flip, flip, pub, sigalg, swap, rep, gg)}
+        {
+            "kind": st.just("fault"),
+            "kex": kex_st,
+            "hostalg": st.sampled_from(ALLKEYALGS),
+            "fault": st.one_of(flip, flip, flip, pub, sigalg, swap, rep, gg, reenc, reenc, signer, signer),
+            "rekeys": st.sampled_from(REKEYS),
+        }
     )
 
 
 def honest_st(kex_st, max_rekeys=3):
     return st.fixed_dictionaries(
-        {"kind": st.just("honest"), "kex": kex_st, "hostalg": st.sampled_from(ALLKEYALGS), "rekeys": st.lists(st.sampled_from(["c", "s"]), min_size=0, max_size=max_rekeys)}
+        {
+            "kind": st.just("honest"),
+            "kex": kex_st,
+            "hostalg": st.sampled_from(ALLKEYALGS),
+            "rekeys": st.lists(st.sampled_from(["c", "s"]), min_size=0, max_size=max_rekeys),
+            "server": st.sampled_from(["paramiko", "paramiko", "ref-uncompressed", "ref-compressed", "ref-compressed"]),
+        }
     )
 
 
@@ -393,6 +610,56 @@ def _dispatch(ctx, case):
     if case["kind"] == "honest":
         return run_honest(ctx, case)
     return run_fault(ctx, case)
+
+
+def fault_floor():
+    """Deterministic part of the fault domain: every kex at k = 1 and k = 2, every alteration kind
+    at k = 2 and k = 3 (and the kinds that only this file's later versions know at k = 1 too),
+    kex / host key algorithm / initiators rotating."""
+    floor = []
+    for i, kex in enumerate(KEXES):
+        f = dict({"kind": "flip", "field": ["sig", "k_s", "pub"][i % 3], "n": 7 + 13 * i}, **({"part": "blob"} if i % 3 == 0 else {}))
+        floor.append({"kind": "fault", "kex": kex, "hostalg": ALLKEYALGS[(2 * i) % 7], "fault": f})
+        f2 = dict({"kind": "flip", "field": ["pub", "sig", "k_s"][i % 3], "n": 11 + 17 * i}, **({"part": "blob"} if i % 3 == 1 else {}))
+        floor.append({"kind": "fault", "kex": kex, "hostalg": ALLKEYALGS[(2 * i + 3) % 7], "fault": f2, "rekeys": ["c"] if i % 2 else ["s"]})
+    for hostalg in ALLKEYALGS:
+        floor.append({"kind": "fault", "kex": CHEAP[0], "hostalg": hostalg, "fault": {"kind": "swapkey"}})
+    floor.append({"kind": "fault", "kex": CHEAP[1], "hostalg": "ssh-ed25519", "fault": {"kind": "replay"}})
+    floor.append({"kind": "fault", "kex": "diffie-hellman-group-exchange-sha1", "hostalg": "rsa-sha2-256", "fault": {"kind": "gexgroup", "field": "p", "n": 1}})
+    kinds = [
+        {"kind": "flip", "field": "sig", "part": "blob", "n": 5},
+        {"kind": "flip", "field": "sig", "part": "name", "n": 3},
+        {"kind": "flip", "field": "k_s", "n": 101},
+        {"kind": "flip", "field": "pub", "n": 77},
+        {"kind": "pub", "n": 123456789, "seed": b"c06-floor"},
+        {"kind": "sigalg", "name": "rsa-sha2-256"},
+        {"kind": "sigalg", "name": "ssh-ed25519"},
+        {"kind": "swapkey"},
+        {"kind": "replay"},
+        {"kind": "reenc", "field": "pub", "n": 0},
+        {"kind": "reenc", "field": "pub", "n": 1},
+        {"kind": "reenc", "field": "k_s", "n": 0},
+        {"kind": "reenc", "field": "k_s", "n": 1},
+    ] + [{"kind": "signer", "how": h, "n": 9} for h in SIGNER_HOWS]
+    pats = {2: [["c"], ["s"]], 3: [["c", "s"], ["s", "c"], ["s", "s"], ["c", "c"]]}
+    j = 0
+    for f in kinds:
+        ks = (1, 2, 3) if f["kind"] in ("reenc", "signer") else (2, 3)
+        for k in ks:
+            if k == 1 and f["kind"] == "reenc" and f["field"] == "pub":
+                # one per kex family (the encodings differ by family)
+                for kex in CHEAPISH:
+                    floor.append({"kind": "fault", "kex": kex, "hostalg": ALLKEYALGS[j % 7], "fault": dict(f)})
+                    j += 1
+                continue
+            c = {"kind": "fault", "kex": CHEAPISH[j % len(CHEAPISH)], "hostalg": ALLKEYALGS[(3 * j) % 7], "fault": dict(f)}
+            if k > 1:
+                c["rekeys"] = pats[k][j % len(pats[k])]
+            floor.append(c)
+            j += 1
+    for k in (2, 3):
+        floor.append({"kind": "fault", "kex": "diffie-hellman-group-exchange-sha256", "hostalg": ALLKEYALGS[k], "fault": {"kind": "gexgroup", "field": "pg"[k % 2], "n": k}, "rekeys": pats[k][k % 2]})
+    return floor
 
 
 def run(ctx):
@@ -403,34 +670,32 @@ def run(ctx):
     combos = []
     if quick:
         for i, kex in enumerate(KEXES):
-            combos.append((kex, ALLKEYALGS[i % 7], ["c"] if i % 2 else ["s"]))
-            combos.append((kex, ALLKEYALGS[(i + 3) % 7], []))
+            combos.append((kex, ALLKEYALGS[i % 7], ["c"] if i % 2 else ["s"], "paramiko"))
+            combos.append((kex, ALLKEYALGS[(i + 3) % 7], [], "paramiko"))
+        for i, kex in enumerate(CURVES):
+            combos.append((kex, ALLKEYALGS[(2 * i + 1) % 7], [["c"], ["s", "c"], []][i], "ref-compressed"))
+            combos.append((kex, ALLKEYALGS[(2 * i + 4) % 7], [[], ["s"], ["c", "s"]][i], "ref-uncompressed"))
     else:
         allc = [(k, h) for k in KEXES for h in ALLKEYALGS]
         for j, (k, h) in enumerate(allc):
             if j % ctx.nworkers == ctx.worker:
-                combos.append((k, h, ["c", "s"][: 1 + j % 2]))
-    for kex, hostalg, rk in combos:
+                combos.append((k, h, ["c", "s"][: 1 + j % 2], "paramiko"))
+                if k in CURVES:
+                    combos.append((k, h, ["s", "c"][: 1 + j % 2], ["ref-compressed", "ref-uncompressed"][j % 2]))
+    for kex, hostalg, rk, server in combos:
         if ctx.out_of_time():
             break
-        run_honest(ctx, {"kind": "honest", "kex": kex, "hostalg": hostalg, "rekeys": rk})
-    floor = []
-    for i, kex in enumerate(KEXES):
-        floor.append({"kind": "fault", "kex": kex, "hostalg": ALLKEYALGS[(2 * i) % 7], "fault": dict({"kind": "flip", "field": ["sig", "k_s", "pub"][i % 3], "n": 7 + 13 * i}, **({"part": "blob"} if i % 3 == 0 else {}))})
-    for hostalg in ALLKEYALGS:
-        floor.append({"kind": "fault", "kex": CHEAP[0], "hostalg": hostalg, "fault": {"kind": "swapkey"}})
-    floor.append({"kind": "fault", "kex": CHEAP[1], "hostalg": "ssh-ed25519", "fault": {"kind": "replay"}})
-    floor.append({"kind": "fault", "kex": "diffie-hellman-group-exchange-sha1", "hostalg": "rsa-sha2-256", "fault": {"kind": "gexgroup", "field": "p", "n": 1}})
-    for j, c in enumerate(floor):
+        run_honest(ctx, {"kind": "honest", "kex": kex, "hostalg": hostalg, "rekeys": rk, "server": server})
+    for j, c in enumerate(fault_floor()):
         if ctx.out_of_time():
             break
         if j % ctx.nworkers == ctx.worker:
             run_fault(ctx, c)
     ctx.note("kex_x_hostalg_honest_floor", len(combos))
     # 2. hypothesis-drawn remainder; quick keeps to the cheap methods, thorough draws from all
-    kex_st = st.sampled_from(CHEAP) if quick else st.one_of(st.sampled_from(CHEAP), st.sampled_from(KEXES))
-    ctx.explore(fault_st(kex_st), lambda c: _dispatch(ctx, c), ctx.scale(110, 4000), shrink=False, seed_offset=0)
-    ctx.explore(honest_st(kex_st, 3), lambda c: _dispatch(ctx, c), ctx.scale(25, 800), shrink=False, seed_offset=1)
+    kex_st = st.sampled_from(CHEAPISH) if quick else st.one_of(st.sampled_from(CHEAPISH), st.sampled_from(KEXES))
+    ctx.explore(fault_st(kex_st), lambda c: _dispatch(ctx, c), ctx.scale(220, 6000), shrink=False, seed_offset=0)
+    ctx.explore(honest_st(kex_st, 3), lambda c: _dispatch(ctx, c), ctx.scale(40, 1000), shrink=False, seed_offset=1)
 
 
 def replay(ctx, case):
